@@ -220,9 +220,9 @@ package dht
 //@   callsite (*dht.Server).sendError writes-need-token: writes(m.Q) ==> recorded("tokenok") || (m.A == nil && $e.Code == 203)
 //@   callsite (*dht/bep44.Wrapper).Put writes-need-token: m.Q == "put" && recorded("tokenok")
 //@   callsite go:(dht/peer-store.Interface).AddPeer writes-need-token: m.Q == "announce_peer" && recorded("tokenok")
-//@   callsite go:dynamic:h writes-need-token: m.Q == "announce_peer" && recorded("tokenok")
+//@   callsite go:dynamic:OnAnnouncePeer writes-need-token: m.Q == "announce_peer" && recorded("tokenok")
 //@   callsite go:(dht/peer-store.Interface).AddPeer announced-endpoint: $0 == m.A.InfoHash && $1.IP == source.IP() && $1.Port == (m.A.ImpliedPort ? source.Port() : (m.A.Port != nil ? *m.A.Port : 0))
-//@   callsite go:dynamic:h announce-callback-arguments: $0 == m.A.InfoHash && $1 == source.IP() && $2 == (m.A.ImpliedPort ? source.Port() : (m.A.Port != nil ? *m.A.Port : 0)) && $3 == (m.A.ImpliedPort || m.A.Port != nil)
+//@   callsite go:dynamic:OnAnnouncePeer announce-callback-arguments: $0 == m.A.InfoHash && $1 == source.IP() && $2 == (m.A.ImpliedPort ? source.Port() : (m.A.Port != nil ? *m.A.Port : 0)) && $3 == (m.A.ImpliedPort || m.A.Port != nil)
 //@   callsite (dht/peer-store.Interface).GetPeers peers-of-the-requested-infohash: m.Q == "get_peers" && $0 == m.A.InfoHash
 //@   callsite dht.filterPeers filters-what-the-store-returned: $querySourceIp == source.IP() && $queryWants == m.A.Want && $allPeers == recorded("peers")
 //@   callsite (*dht.Server).reply get-peers-values-and-token: m.Q == "get_peers" && s.config.PeerStore != nil ==> $r.Token != nil && *$r.Token == recorded("token") && $r.Values == recorded("filtered")
